@@ -83,6 +83,12 @@ theorem foldl_add (g : β → Rat) (l : List β) (init : Rat) :
   | nil => simp
   | cons x xs ih => simp only [List.foldl_cons, List.map_cons, List.sum_cons]; rw [ih]; ring
 
+theorem foldl_sum (l : List Rat) (init : Rat) :
+    l.foldl (fun acc x => acc + x) init = init + l.sum := by
+  induction l generalizing init with
+  | nil => simp
+  | cons x xs ih => simp only [List.foldl_cons, List.sum_cons]; rw [ih]; ring
+
 theorem sum_map_mul_right (g : β → Rat) (l : List β) (c : Rat) :
     (l.map fun x => g x * c).sum = (l.map g).sum * c := by
   induction l with
